@@ -10,6 +10,7 @@ import IcontractModel.Spec.Post
 import IcontractModel.Spec.PyBind
 import IcontractModel.Decor
 import IcontractModel.Config
+import IcontractModel.Spec.Override
 open Lean Icontract
 
 deriving instance FromJson, ToJson for Exc
@@ -238,6 +239,110 @@ def runConfig (c : ConfigCase) : Json :=
   Json.mkObj [("enabled", boolJson en), ("sameObject", boolJson a.sameObject),
     ("attrsAdded", boolJson a.attrsAdded), ("conditionStored", boolJson a.conditionStored)]
 
+/-! ## class-history domain (metaclass, invariant decorator) -/
+
+open Icontract.Meta in
+deriving instance FromJson, ToJson for Meta.Member
+
+structure MetaOp where
+  op : String                      -- pre | post | snap | class | inv
+  f : Nat := 0
+  c : Nat := 0
+  k : Nat := 0
+  bases : List Nat := []
+  dbc : Bool := true
+  ns : List (String × Meta.Member) := []
+  call : Bool := true
+  setattr : Bool := false
+deriving FromJson
+
+structure MetaCase where
+  snapNames : List (Nat × String)
+  ops : List MetaOp
+deriving FromJson
+
+namespace MetaRun
+open Icontract.Meta
+
+def natsJson (xs : List Nat) : Json := jArr (xs.map jNat)
+
+def declsOf (ops : List MetaOp) : Decls where
+  ownPre := fun f => (ops.filter (fun o => o.op == "pre" && o.f == f)).map (·.c)
+  ownPosts := fun f => (ops.filter (fun o => o.op == "post" && o.f == f)).map (·.c)
+  ownSnaps := fun f => (ops.filter (fun o => o.op == "snap" && o.f == f)).map (·.c)
+  ownInv := fun k => (ops.filter (fun o => o.op == "inv" && o.k == k)).map (fun o => (o.c, { call := o.call, setattr := o.setattr }))
+
+def keysOf (w : World) (c : Cls) : List String :=
+  let ks := (c.mro.map (fun a => match w.cls? a with | some ca => ca.ns.map (·.1) | none => [])).flatten
+  (ks.eraseDups.toArray.qsort (· < ·)).toList
+
+def whichOf (m : Member) : List Nat :=
+  match m with
+  | .prop _ _ _ => [0, 1, 2]
+  | .other => []
+  | _ => [0]
+
+def observe (w : World) (d : Decls) : Json :=
+  jArr (w.classes.map fun c =>
+    let members := (keysOf w c).map fun key =>
+      match lookupMember w c.id key with
+      | none => jArr [jStr key]
+      | some m =>
+        jArr [jStr key, jArr ((whichOf m).filterMap fun which =>
+          match memberFn m which with
+          | none => none
+          | some f =>
+            let prov := (provider w c.id key).getD c.id
+            let fuel := w.classes.length + 1
+            let sp := specPreAt w d fuel prov key which
+            some (Json.mkObj [
+              ("which", jNat which),
+              ("pre", jArr ((preOf w f).map natsJson)), ("snaps", natsJson (snapsOf w f)), ("posts", natsJson (postsOf w f)),
+              ("specPre", match sp with | some gs => jArr (gs.map natsJson) | none => Json.null),
+              ("specSnaps", natsJson (specListAt w d.ownSnaps fuel prov key which)),
+              ("specPosts", natsJson (specListAt w d.ownPosts fuel prov key which))]))]
+    Json.mkObj [("k", jNat c.id), ("dbc", boolJson c.dbc), ("mro", natsJson c.mro),
+      ("inv", natsJson (invOf w c.id .all)), ("invCall", natsJson (invOf w c.id .onCall)),
+      ("invSetattr", natsJson (invOf w c.id .onSetattr)),
+      ("specInv", jArr ((specInv w d c.id).map fun p => jArr [jNat p.1, boolJson p.2.call, boolJson p.2.setattr])),
+      ("members", jArr members)])
+
+def errJson : Meta.DefErr → Json
+  | .typeErrorWeaken _ => jArr [jStr "TypeError", jStr "weaken"]
+  | .valueErrorDuplicateSnapshot _ => jArr [jStr "ValueError", jStr "duplicate-snapshot"]
+  | .valueErrorNoChecker => jArr [jStr "ValueError", jStr "snapshot-without-postcondition"]
+  | .mroConflict => jArr [jStr "TypeError", jStr "mro"]
+
+def step (w : World) (d : Decls) (o : MetaOp) : World × Json × Json :=
+  match o.op with
+  | "pre" => (addPre w o.f o.c, Json.null, Json.null)
+  | "post" => (addPost w o.f o.c, Json.null, Json.null)
+  | "snap" => (match addSnap w o.f o.c with | .ok w' => (w', Json.null, Json.null) | .error e => (w, errJson e, Json.null))
+  | "inv" =>
+    if (w.cls? o.k).isNone then (w, jStr "skipped", Json.null)
+    else (addInvariant w o.k o.c { call := o.call, setattr := o.setattr }, Json.null, Json.null)
+  | "class" =>
+    if o.bases.any (fun b => (w.cls? b).isNone) then (w, jStr "skipped", Json.null) else
+    let fuel := w.classes.length + 2
+    let rej := o.dbc && o.ns.any (fun p => (whichOf p.2).any (fun which =>
+      match memberFn p.2 which with
+      | some f => specRejects w d fuel o.bases p.1 which (d.ownPre f)
+      | none => false))
+    (match defineClass w o.k o.bases o.ns o.dbc with
+     | .ok w' => (w', Json.null, boolJson rej)
+     | .error e => (w, errJson e, boolJson rej))
+  | _ => (w, jStr "unknown-op", Json.null)
+
+def run (c : MetaCase) : Json :=
+  let d := declsOf c.ops
+  let w0 : World := { snapNames := c.snapNames }
+  let (w, outs) := c.ops.foldl (fun (acc : World × List Json) o =>
+    let (w', err, rej) := step acc.1 d o
+    (w', acc.2 ++ [Json.mkObj [("err", err), ("specRejects", rej), ("obs", observe w' d)]])) (w0, [])
+  Json.mkObj [("steps", jArr outs), ("hook", natsJson w.hookCalls)]
+
+end MetaRun
+
 /-- a sequence of calls in one context: the in-progress set is threaded from step to step -/
 def runCheckerSeq (steps : List CheckerCase) : Json :=
   let rec go (s : Option (List Id)) : List CheckerCase → List Json
@@ -260,6 +365,10 @@ def handle (line : String) : String :=
       match (fromJson? j : Except String CheckerCase) with
       | .ok c => (runChecker c).compress
       | .error e => (Json.mkObj [("error", jStr s!"decode checker: {e}")]).compress
+    | .ok "meta" =>
+      match (fromJson? j : Except String MetaCase) with
+      | .ok c => (MetaRun.run c).compress
+      | .error e => (Json.mkObj [("error", jStr s!"decode meta: {e}")]).compress
     | .ok "define" =>
       match (fromJson? j : Except String DefineCase) with
       | .ok c => (runDefine c).compress
